@@ -627,6 +627,11 @@ func subControlWriter() mon.Sub {
 	}
 }
 
+// plainReader hides every optional method of a source (no WriterTo).
+type plainReader struct{ r io.Reader }
+
+func (p plainReader) Read(b []byte) (int, error) { return p.r.Read(b) }
+
 func runControlWriter(c *mon.C, bufN int, side ref.Side, st ws.State, op byte, sizes []int, flushAt int, bigBuf []byte) bool {
 	c.Count(1)
 	dst := xport.NewRec()
@@ -703,8 +708,19 @@ func runControlWriter(c *mon.C, bufN int, side ref.Side, st ws.State, op byte, s
 			ctr++
 			p[j] = byte(ctr)
 		}
-		m, err := w.Write(p)
-		trace = append(trace, fmt.Sprintf("Write(%d) -> (%d, %v)", n, m, err))
+		// every third sequence hands some of its pieces over with io.Copy from a plain reader (what HandlePing does
+		// with a ping's payload): whichever of Write / io.ReaderFrom the copy ends up in, the limit is one limit
+		viaCopy := len(sizes) > 0 && (ctr+flushAt+len(sizes))%3 == 0 && (i+ctr)%2 == 0 && n > 0
+		var m int
+		var err error
+		if viaCopy {
+			var m64 int64
+			m64, err = io.Copy(w, plainReader{bytes.NewReader(p)})
+			m = int(m64)
+		} else {
+			m, err = w.Write(p)
+		}
+		trace = append(trace, fmt.Sprintf("%s(%d) -> (%d, %v)", map[bool]string{true: "io.Copy", false: "Write"}[viaCopy], n, m, err))
 		if m < 0 || m > n {
 			det["trace"] = trace
 			c.Fail("controlwriter/count", "Write returned an impossible count", det)
